@@ -25,6 +25,7 @@ class MemConnection(Connection):
         self.sent = []          # list of bytes objects handed to send_data, in order
         self.enabled = False
         self.fail_sends = False
+        self.auto_reply = None  # callable(frame dict) -> bytes | None: the peer's immediate answer to a written frame
 
     def enable(self):
         self.enabled = True
@@ -38,6 +39,14 @@ class MemConnection(Connection):
         if self.fail_sends or not self._connected:
             return False
         self.sent.append(bytes(data))
+        if self.auto_reply is not None and len(data) >= 14:
+            n = struct.unpack(">L", data[:4])[0]
+            h = data[4:14]
+            fr = {"session": h[0] << 8 | h[1], "w": bool(h[2] & 0x80), "stream": h[2] & 0x7F, "function": h[3], "ptype": h[4],
+                  "stype": h[5], "system": struct.unpack(">L", h[6:10])[0], "body": bytes(data[14:4 + n])}
+            answer = self.auto_reply(fr)
+            if answer:
+                self.feed(answer)
         return True
 
     # --- driven by the test
@@ -284,3 +293,45 @@ def gem_to_communicating(handler, proto, conn):
         conn.feed(frame(0, sent[-1]["system"], 1, 14, False, R.encode(("L", [("B", b"\x00"), ("L", [])]))))
     conn.sent.clear()
     return handler.communication_state.current.name
+
+
+
+class inline_threads:
+    """Context manager: threads started by the given repository modules run their target synchronously in start()
+    (used for trigger_collection_events, whose sender thread would otherwise wait for S6F12 in the background)."""
+
+    def __init__(self, *modules):
+        self.modules = modules
+
+    def __enter__(self):
+        real = threading
+
+        class InlineThread:
+            def __init__(self, target=None, args=(), kwargs=None, daemon=None, name=None, group=None):
+                self._t, self._a, self._k = target, args, kwargs or {}
+                self.daemon = daemon
+                self.name = name
+
+            def start(self):
+                self._t(*self._a, **self._k)
+
+            def join(self, timeout=None):
+                return None
+
+            def is_alive(self):
+                return False
+
+        class Shim:
+            Thread = InlineThread
+
+            def __getattr__(self, n):
+                return getattr(real, n)
+
+        self._saved = [(m, m.threading) for m in self.modules]
+        for m in self.modules:
+            m.threading = Shim()
+        return self
+
+    def __exit__(self, *a):
+        for m, t in self._saved:
+            m.threading = t
